@@ -148,6 +148,65 @@ def w_large(job):
             'sample': {'rows': rows, 'duplicates': [0, 1, 2], 'missing': [0, 1, 2]}}
 
 
+def hist_calls():
+    """Small alphabet of profiler calls: valid ones (judged exactly) and ones that are rejected or fail part-way
+    (a column of unhashable values makes the per-attribute loop stop after some rows have been produced)."""
+    nan = float('nan')
+    lists = pd.Series([['a'], ['b'], ['a']], dtype=object)
+    t3 = {'c': ['a', None, 'a'], 'k': [0, 1, 2]}
+    t2 = {'f': [1.5, nan], 'g': ['x', 'y']}
+    t2ref = {'f': [1.5, None], 'g': ['x', 'y']}
+
+    def frame(cols, order):
+        return pd.DataFrame({c: pd.Series(cols[c], dtype=object if isinstance(cols[c][0], str) or cols[c][0] is None
+                                          else None) for c in order})
+    calls = {
+        'v-3rows': (lambda: frame(t3, ['c', 'k']), None, t3, ['c', 'k'], 3),
+        'v-3rows-permuted-attrs': (lambda: frame(t3, ['c', 'k']), ['k', 'c'], t3, ['k', 'c'], 3),
+        'v-2rows-one-attr': (lambda: frame(t2, ['f', 'g']), ['g'], t2ref, ['g'], 2),
+        'v-2rows': (lambda: frame(t2, ['g', 'f']), None, t2ref, ['g', 'f'], 2),
+        'x-unhashable-last': (lambda: pd.DataFrame({'k': [0, 1, 2], 'c': ['a', 'b', 'a'], 'lst': lists}), None, None, None, 3),
+        'x-unhashable-first': (lambda: pd.DataFrame({'lst': lists, 'k': [0, 1, 2]}), None, None, None, 3),
+        'x-unhashable-listed-second': (lambda: pd.DataFrame({'lst': lists, 'k': [5, 5, 6]}), ['k', 'lst'], None, None, 3),
+        'x-unknown-attr': (lambda: frame(t3, ['c', 'k']), ['c', 'nope'], None, None, 3),
+        'x-not-a-frame': (lambda: [1, 2, 3], None, None, None, 3),
+    }
+    return calls
+
+
+def w_hist(job):
+    calls = hist_calls()
+    names = sorted(calls)
+    hists = [h for d in range(1, job['depth'] + 1) for h in itertools.product(names, repeat=d)]
+    viol = []
+    nviol = cases = ncalls = nontrivial = 0
+    outs = {}
+    for h in hists[job['lo']:job['hi']]:
+        cases += 1
+        if any(x.startswith('x-') for x in h[:-1]) and h[-1].startswith('v-'):
+            nontrivial += 1
+        for pos, name in enumerate(h):
+            mk, attrs, ref, exp_attrs, nrows = calls[name]
+            arg = mk()
+            ncalls += 1
+            if ref is None:
+                try:
+                    ssj.profile_table_for_join(arg, attrs)
+                    outs['invalid-call-returned'] = 1
+                except Exception:        # noqa: BLE001  (not judged: the call is outside the statement)
+                    outs['invalid-call-raised'] = 1
+                continue
+            out = lib(ssj.profile_table_for_join, arg, attrs)
+            bad = judge(out, ref, exp_attrs, nrows, 'call %d (%s) of the history %s' % (pos + 1, name, list(h)), viol,
+                        'hist|%s|%d' % ('>'.join(h), pos))
+            nviol += bad
+            outs['valid-call-judged'] = 1
+            if bad:
+                break
+    return {'cases': cases, 'calls': ncalls, 'nontrivial': nontrivial, 'outcomes': outs,
+            'extra': {'violations': nviol}, 'viol': viol, 'sample': {'history': list(hists[job['lo']])}}
+
+
 def layers(tier):
     quick = tier == 'quick'
     sd = seed()
@@ -172,6 +231,14 @@ def layers(tier):
                     'tables of %s rows x {0,1,2} duplicates x {0,1,2} missing values: beyond 20 000 rows the '
                     'two-decimal percentages round to 100.0 / 0.0 although a duplicate or missing value exists' % rows,
                     min_nontrivial=40, chunksize=1))
+    depth = 3
+    nh = sum(len(hist_calls()) ** d for d in range(1, depth + 1))
+    jobs = [{'depth': depth, 'lo': lo, 'hi': min(lo + 50, nh)} for lo in range(0, nh, 50)]
+    Ls.append(Layer('call-histories', 'checks.c17:w_hist', jobs,
+                    'all %d histories of 1..%d calls over an alphabet of 4 valid calls and 5 calls that are rejected or '
+                    'fail part-way (unknown attribute, not a frame, a column of unhashable values at three positions); '
+                    'every valid call of every history is judged exactly; non-trivial = valid call after a failed one'
+                    % (nh, depth), min_nontrivial=100, chunksize=1))
     return Ls
 
 
